@@ -15,7 +15,7 @@
 // Oracle: every honest proof verifies and TMCG_TypeOfCard == T.  Independently, the harness decrypts the card with the
 //   secret primes (Legendre symbols) and requires the same T (this also pins down a masking error when the proof path and
 //   the type computation would agree with each other on a wrong type).
-// The zero-knowledge proofs use security level 4 (cut-and-choose rounds); completeness is exact (error < 2^-400: the prover
+// The zero-knowledge proofs use security level 2 (cut-and-choose rounds); completeness is exact (error < 2^-400: the prover
 //   asserts s != 1 for a random 448-bit s), soundness is not needed here.
 // One evaluation = one opening (one opener, all contributions).  Non-trivial: the card was masked at least once.
 // The "missing contribution" clause of C01 concerns the discrete-log encoding only (see c01_vtmf.cc).
@@ -100,7 +100,7 @@ static void run_cell(const KeyPool &pool, size_t first_key, unsigned long keybit
 	G.setup(pool, which, seed ^ hash_str(cid));
 	std::vector<SchindelhauerTMCG *> tm;
 	for (size_t j = 0; j < k; j++)
-		tm.push_back(new SchindelhauerTMCG(4, k, w));
+		tm.push_back(new SchindelhauerTMCG(2, k, w));
 	size_t ntypes = (size_t)1 << w;
 	std::vector<Plan> pls;
 	plans(k, Lopen, Lpriv, true, pls);
@@ -207,7 +207,7 @@ static void run_cell(const KeyPool &pool, size_t first_key, unsigned long keybit
 	for (size_t j = 0; j < tm.size(); j++)
 		delete tm[j];
 	R->counters["openings"] += openings;
-	R->sample(cid, str(keybits) + "-bit Rabin keys, " + (only_plan >= 0 ? "plan " + pls[only_plan].str() : str(pls.size()) + " creation plans") + " x " + str(ntypes) + " types x every opener, all proofs interactive (security level 4)");
+	R->sample(cid, str(keybits) + "-bit Rabin keys, " + (only_plan >= 0 ? "plan " + pls[only_plan].str() : str(pls.size()) + " creation plans") + " x " + str(ntypes) + " types x every opener, all proofs interactive (security level 2)");
 }
 
 int main(int argc, char **argv)
